@@ -279,3 +279,22 @@ def c16(work, tier, seed, replay):
     return dict(violations=viol, coverage=cov, assumptions=ASSUME_CODEC[:1] + [
         "the transaction id NewRequestFromAdvertise draws at random is taken from the observed result",
         "inputs and results are compared as the value trees of Dhcp6Wire.tla (projection of typed fields)"])
+
+
+@prop("C15")
+def c15(work, tier, seed, replay):
+    if replay:
+        return replay_file(work, "Trace_Dhcp4Build", replay)
+    vh = common.build_vh(work)
+    mc = common.require_mc(common.tlc(work, "MC_Dhcp4Build", cfg="MC_Dhcp4Build", workers=8, timeout=1200), "MC_Dhcp4Build")
+    tr, stats = common.vh_gen(work, vh, "c15", seed, tier)
+    viol, tstates, n = validate(work, "Trace_Dhcp4Build", tr, stats, procs=6 if tier == "quick" else 12)
+    cov = codec_coverage([mc], stats, tstates, n,
+                         "NewDiscovery/NewInform/NewRequestFromOffer/NewRenewFromAck/NewReplyFromRequest/NewReleaseFromACK/New on generated and "
+                         "decoded input packets (any opcode and flags, boundary transaction ids, options 82/61/54/55/53 absent, empty, present) "
+                         "with lists of 0..4 modifiers drawn from 22 exported With* functions (including ones that override a builder default, "
+                         "WithOptionCopied and WithReply of another packet); the same modifier slice (with spare capacity) is passed to two "
+                         "builder calls; non-trivial = at least one modifier; distinct by builder + modifiers + input encoding", False)
+    return dict(violations=viol, coverage=cov, assumptions=ASSUME_CODEC[:1] + [
+        "a random transaction id is taken from the observed result; every other field must equal Build(builder, input, modifiers)",
+        "option values set by typed With* modifiers are given to the specification as raw bytes computed by the harness from the RFC layouts"])
